@@ -268,7 +268,7 @@ func (q *modelQuery) heapObject(term string, pt *types.Pointer) (string, bool) {
 	if name, ok := q.refVar[key]; ok {
 		return name, true
 	}
-	if len(q.refVar) >= 24 {
+	if len(q.refVar) >= 12 {
 		return "", false
 	}
 	if q.vcText == "" {
@@ -278,6 +278,15 @@ func (q *modelQuery) heapObject(term string, pt *types.Pointer) (string, bool) {
 	q.refVar[key] = name
 	q.heapPre = append(q.heapPre, fmt.Sprintf("%s := &%s{}", name, typeStr(pt.Elem(), q.w.prog.Pkg)))
 	stt := named.Underlying().(*types.Struct)
+	var pre []string
+	for i := 0; i < stt.NumFields(); i++ {
+		f := stt.Field(i)
+		arr := "H0_" + sanitize(tn+"."+f.Name())
+		if strings.Contains(q.vcText, "(declare-const "+arr+" ") {
+			pre = append(pre, q.fieldTerms(fmt.Sprintf("(select %s %s)", arr, r.Num().String()), f.Type(), 0)...)
+		}
+	}
+	q.prefetch(pre)
 	for i := 0; i < stt.NumFields(); i++ {
 		f := stt.Field(i)
 		arr := "H0_" + sanitize(tn+"."+f.Name())
@@ -310,12 +319,81 @@ type modelQuery struct {
 	calls   int
 }
 
+// prefetch evaluates many terms with one solver run and fills the cache.
+func (q *modelQuery) prefetch(terms []string) {
+	var need []string
+	for _, t := range terms {
+		if _, ok := q.cache[t]; !ok {
+			need = append(need, t)
+		}
+	}
+	if len(need) == 0 || q.calls > 60 {
+		return
+	}
+	q.calls++
+	file := filepath.Join(q.dir, "model_query.smt2")
+	os.WriteFile(file, []byte(q.vc.smtText(q.prelude, fmt.Sprintf("(get-value (%s))\n", strings.Join(need, " ")))), 0o644)
+	var cfg SolverCfg
+	for _, s := range solvers {
+		if s.Name == q.solver {
+			cfg = s
+		}
+	}
+	if cfg.Cmd == nil {
+		cfg = solvers[0]
+	}
+	args := cfg.Cmd(file, 30, 0)
+	out, _ := exec.Command(args[0], args[1:]...).CombinedOutput()
+	text := strings.TrimSpace(string(out))
+	if !strings.HasPrefix(text, "sat") {
+		return
+	}
+	xs := parseSx(strings.TrimSpace(text[3:]))
+	if len(xs) == 0 || len(xs[0].list) != len(need) {
+		return
+	}
+	for i, pr := range xs[0].list {
+		if len(pr.list) == 2 {
+			q.cache[need[i]] = pr.list[1]
+		}
+	}
+}
+
+// fieldTerms lists the terms goLiteral will ask for when rendering a value of type t at term.
+func (q *modelQuery) fieldTerms(term string, t types.Type, depth int) []string {
+	smt := q.w.smt
+	t = smt.resolve(t)
+	switch u := t.Underlying().(type) {
+	case *types.Basic:
+		return []string{term}
+	case *types.Pointer:
+		if smt.isHeapPtr(t) {
+			return []string{term}
+		}
+		return q.fieldTerms(term, u.Elem(), depth)
+	case *types.Struct:
+		if smt.isHeapStruct(t) || depth > 2 {
+			return nil
+		}
+		sn := smt.sortOf(t)
+		var out []string
+		for i := 0; i < u.NumFields(); i++ {
+			out = append(out, q.fieldTerms(fmt.Sprintf("(%s_%s %s)", sn, u.Field(i).Name(), term), u.Field(i).Type(), depth+1)...)
+		}
+		return out
+	case *types.Slice:
+		sn := smt.sortOf(t)
+		return []string{fmt.Sprintf("(len_%s %s)", sn, term), fmt.Sprintf("(nil_%s %s)", sn, term)}
+	}
+	return nil
+}
+
 func (q *modelQuery) value(term string) (*sx, bool) {
 	if v, ok := q.cache[term]; ok {
 		return v, v != nil
 	}
 	q.calls++
-	if q.calls > 400 {
+	if q.calls > 120 {
 		return nil, false
 	}
 	file := filepath.Join(q.dir, "model_query.smt2")
